@@ -18,7 +18,7 @@ import subprocess
 import common
 import pytrans
 
-ERRS = {"AdbTimeoutError": "AdbTimeoutError", "OverflowError": "OverflowError", "TypeError": "TypeError", "KeyError": "KeyError", "IndexError": "IndexError", "Empty": "Empty", "AttributeError": "AttributeError",
+ERRS = {"InvalidCommandError": "InvalidCommandError", "InvalidChecksumError": "InvalidChecksumError", "AdbTimeoutError": "AdbTimeoutError", "OverflowError": "OverflowError", "TypeError": "TypeError", "KeyError": "KeyError", "IndexError": "IndexError", "Empty": "Empty", "AttributeError": "AttributeError",
         "ValueError": "ValueError", "error": "StructError"}
 
 
@@ -328,7 +328,60 @@ def cases_loops(rng, n):
     return out
 
 
-GROUPS = {"loops": cases_loops, "keys": cases_keys, "store": cases_store, "txn": cases_txn, "fsinfo": cases_fsinfo, "message": cases_message, "device": cases_device}
+def cases_packet(rng, n):
+    """the effect-parameterised forms of _read_packet_from_device and _send (both twins): valid / unknown-command / wrong-checksum / short / empty-payload headers,
+    messages with and without payload and with out-of-range arguments."""
+    import ast
+    import importlib
+    import struct as _struct
+    from adb_shell import constants
+    from adb_shell.adb_message import AdbMessage
+    out = []
+    units = dict(pytrans.build_units(common.REPO))
+
+    def header(cmd, a0, a1, data, bad_sum=False, ln=None):
+        c = _struct.unpack("<I", cmd)[0]
+        return _struct.pack("<6I", c, a0, a1, len(data) if ln is None else ln, (sum(data) + (1 if bad_sum else 0)) & 0xFFFFFFFF, c ^ 0xFFFFFFFF)
+    for fname, cls, modname in (("adb_device.py", "AdbDevice", "adb_shell.adb_device"), ("adb_device_async.py", "AdbDeviceAsync", "adb_shell.adb_device_async")):
+        u = units[fname]
+        mod = importlib.import_module(modname)
+        for base in ("read_packet_from_device", "send"):
+            for lean_name, fn in sorted(u.fns.items()):
+                if not lean_name.startswith("%s_%s_" % (cls, base)) or any(isinstance(st, ast.Global) for st in fn["body"]):
+                    continue
+                code = compile(ast.fix_missing_locations(ast.Module(body=[ast.FunctionDef(
+                    name="f", args=ast.arguments(posonlyargs=[], args=[ast.arg(arg=p_) for p_ in fn["params"]], kwonlyargs=[], kw_defaults=[], defaults=[]),
+                    body=copy.deepcopy(fn["body"]), decorator_list=[])], type_ignores=[])), "<%s>" % lean_name, "exec")
+                ns = dict(vars(mod))
+                exec(code, ns)
+                for _ in range(max(8, n // 5)):
+                    info = _Info()
+                    info.__class__ = type("_AdbTransactionInfo", (), {})
+                    info.read_timeout_s, info.transport_timeout_s = 10, 5
+                    vals = {"adb_info": info}
+                    if base == "read_packet_from_device":
+                        data = rng.randbytes(rng.choice([0, 1, 5, 40]))
+                        kind = rng.choice(["ok", "ok", "badsum", "unknown", "short", "long", "emptybad"])
+                        cmd = rng.choice(constants.IDS)
+                        if kind == "unknown":
+                            cmd = rng.choice([b"FAIL", b"\xef\xbe\xad\xde", b"\x00\x00\x00\x00", b"STLS"])
+                        hdr = header(cmd, rng.choice([0, 1, 2 ** 32 - 1]), rng.choice([0, 7]), data, bad_sum=(kind in ("badsum", "emptybad")))
+                        if kind == "short":
+                            hdr = hdr[:rng.choice([0, 23])]
+                        if kind == "long":
+                            hdr = hdr + b"x"
+                        vals["eff0"], vals["eff1"] = hdr, data
+                    else:
+                        m = AdbMessage(rng.choice(constants.IDS), rng.choice([0, 5, 2 ** 32 - 1, 2 ** 32]), rng.choice([0, 9, -1 if rng.random() < 0.1 else 3]), rng.choice([b"", b"abc", b"\xff" * 30]))
+                        vals["msg"], vals["eff0"], vals["eff1"] = m, None, None
+                    args = [vals[p_] for p_ in fn["params"]]
+                    largs = " ".join(lean(a) for a in args)
+                    exp = outcome(ns["f"], *[copy.deepcopy(a) for a in args])
+                    out.append(("showM (%s %s)" % (lean_name, largs), exp, "%s(%s)" % (lean_name, ", ".join("%s=%s" % (p_, show(vals[p_])[:30]) for p_ in fn["params"]))))
+    return out
+
+
+GROUPS = {"packet": cases_packet, "loops": cases_loops, "keys": cases_keys, "store": cases_store, "txn": cases_txn, "fsinfo": cases_fsinfo, "message": cases_message, "device": cases_device}
 
 
 def run_cases(cases):
